@@ -902,6 +902,39 @@ func (r *Router) readBodyToBuffer(reader io.Reader) (*bytes.Buffer, error) {
 // * Unix Epoch time (integer seconds since 1970, eg 1535589382)
 // * High resolution unix epoch time (eg 'unixmillis' 1535589382641)
 // * High resolution unix epoch time as a float (eg 1535589382.641)
+// parseFractionalEpoch handles an epoch time written as more than ten decimal
+// digits: the first ten digits are seconds and the remaining digits are a
+// decimal fraction of a second (milliseconds, microseconds, nanoseconds, ...).
+// Digits beyond nanosecond precision are dropped. The float64 route used for
+// other formats cannot represent these values exactly (1535589382641 would
+// become ...382.641000032s) and a 19-digit nanosecond value can overflow int64.
+func parseFractionalEpoch(s string) (sec int64, nsec int64, ok bool) {
+	if len(s) <= 10 {
+		return 0, 0, false
+	}
+	for i := 0; i < len(s); i++ {
+		if s[i] < '0' || s[i] > '9' {
+			return 0, 0, false
+		}
+	}
+	sec, err := strconv.ParseInt(s[:10], 10, 64)
+	if err != nil {
+		return 0, 0, false
+	}
+	frac := s[10:]
+	if len(frac) > 9 {
+		frac = frac[:9]
+	}
+	nsec, err = strconv.ParseInt(frac, 10, 64)
+	if err != nil {
+		return 0, 0, false
+	}
+	for i := len(frac); i < 9; i++ {
+		nsec *= 10
+	}
+	return sec, nsec, true
+}
+
 func getEventTime(etHeader string) time.Time {
 	var eventTime time.Time
 	if etHeader != "" {
@@ -912,7 +945,11 @@ func getEventTime(etHeader string) time.Time {
 			// the default didn't catch it, let's try a few other things
 			// is it all numeric? then try unix epoch times
 			epochInt, err := strconv.ParseInt(etHeader, 0, 64)
-			if err == nil {
+			if sec, nsec, ok := parseFractionalEpoch(etHeader); ok {
+				// all digits and longer than seconds precision: exact integer
+				// arithmetic, no detour through float64
+				eventTime = time.Unix(sec, nsec)
+			} else if err == nil {
 				// it might be seconds or it might be milliseconds! Who can know!
 				// 10-digit numbers are seconds, 13-digit milliseconds, 16 microseconds
 				if len(etHeader) == 10 {
